@@ -13,6 +13,7 @@ package main
 
 import (
 	"github.com/google/go-tdx-guest/verify"
+	"github.com/google/go-tdx-guest/verify/trust"
 	"bytes"
 	"crypto/ecdsa"
 	"crypto/elliptic"
@@ -931,6 +932,49 @@ func c01(r *hx.Run) {
 				r.Emit(fmt.Sprintf("# C01.sequence %s-then-%s tampered=%d", seq[0], seq[1], ti), obs, fail, fmt.Sprintf("sequence|%d|%d", si, ti), true, "sequence")
 			}
 		}
+		// a collateral fetch that goes wrong in the worst way — the caller's getter panics (none configured inside the retrying
+		// getter, a typed-nil getter, a getter that dies on its n-th request): whatever then happens to the call (the panic reaches
+		// the caller, or an error comes back), a quote whose links do not hold is NOT reported as verified (harness-only)
+		getters := []struct {
+			name string
+			mk   func() trust.HTTPSGetter
+		}{
+			{"retrying-getter-without-inner-getter", func() trust.HTTPSGetter { return &trust.RetryHTTPSGetter{Timeout: time.Second, MaxRetryDelay: time.Millisecond} }},
+			{"typed-nil-getter", func() trust.HTTPSGetter { return (*world.Getter)(nil) }},
+			{"getter-panics-on-request-1", func() trust.HTTPSGetter { return &panicGetter{inner: &world.Getter{M: base.Getter.M}, at: 1} }},
+			{"getter-panics-on-request-2", func() trust.HTTPSGetter { return &panicGetter{inner: &world.Getter{M: base.Getter.M}, at: 2} }},
+			{"getter-panics-on-request-3", func() trust.HTTPSGetter { return &panicGetter{inner: &world.Getter{M: base.Getter.M}, at: 3} }},
+		}
+		for gi, g := range getters {
+			for ti, w := range ws[:5] {
+				for _, cr := range []bool{false, true} {
+					for _, entry := range []string{"msg", "raw"} {
+						o := &verify.Options{GetCollateral: true, CheckRevocations: cr, Getter: g.mk(), TrustedRoots: base.Pool()}
+						if n := base.Spec.Now; n != nil {
+							o.Now = vTimeSet(n)
+						}
+						var err error
+						res, _ := hx.GuardTimeout(20*time.Second, func() string {
+							if entry == "raw" {
+								err = verify.RawTdxQuote(quoteRaw(w.Quote), o)
+							} else {
+								err = verify.TdxQuote(proto.Clone(w.Quote).(*pb.QuoteV4), o)
+							}
+							if err != nil {
+								return "err"
+							}
+							return "ok"
+						})
+						fail := ""
+						if res == "ok" && ti > 0 {
+							fail = fmt.Sprintf("reported as verified although the quote has %s (link 1 does not hold) — the collateral getter was %s, collateral checking on", w.Spec.Fault, g.name)
+						}
+						r.Emit(fmt.Sprintf("# C01.getter-panics getter=%d quote=%d cr=%v entry=%s", gi, ti, cr, entry), map[bool]string{true: "accepted", false: "not-accepted"}[res == "ok"], fail,
+							fmt.Sprintf("getter-panics|%d|%d|%v|%s", gi, ti, cr, entry), true, "getter-panics:"+g.name)
+					}
+				}
+			}
+		}
 	}
 
 	// ---- (c) random multi-byte mutants of message fields
@@ -1061,4 +1105,19 @@ func uniqStrings(s []string) []string {
 		}
 	}
 	return out
+}
+
+
+// panicGetter answers like its inner getter until request number `at`, which panics.
+type panicGetter struct {
+	inner trust.HTTPSGetter
+	n, at int
+}
+
+func (g *panicGetter) Get(url string) (map[string][]string, []byte, error) {
+	g.n++
+	if g.n == g.at {
+		panic("c01: the getter dies on this request")
+	}
+	return g.inner.Get(url)
 }
